@@ -33,6 +33,9 @@ type ReqScript struct {
 	// Inline: a single-threaded receiver - it does not read the next packet
 	// while a request it can already issue has not been written to the stream.
 	Inline bool `json:"inline,omitempty"`
+	// ReqLinks: hard-link members (regular files announced with a link name) count
+	// as requestable too - they are regular files of the STAT sequence
+	ReqLinks bool `json:"req_links,omitempty"`
 }
 
 // RefRecvResult is what the reference receiver observed.
@@ -198,7 +201,7 @@ func RunRefReceiver(end *End, sc ReqScript) *RefRecvResult {
 					}
 					id := uint32(len(res.Stats))
 					res.Stats = append(res.Stats, p.Stat)
-					if os.FileMode(p.Stat.Mode)&os.ModeType == 0 && p.Stat.Linkname == "" {
+					if os.FileMode(p.Stat.Mode)&os.ModeType == 0 && (p.Stat.Linkname == "" || sc.ReqLinks) {
 						requestable = append(requestable, id)
 					} else if os.FileMode(p.Stat.Mode)&os.ModeType != 0 {
 						nonfile = append(nonfile, id)
